@@ -29,7 +29,7 @@ func runC20(o *Out, rng *RNG, tier string, replay string) {
 	o.CaseType = "case"
 	o.CheckFn = "check"
 	o.ShardSize = 500
-	o.Rule = "inputs: (1) nested string maps (depth <= 4, overlapping key pool; ~15% malformed: dotted / empty keys, empty sub-maps) -> " +
+	o.Rule = "inputs: (1) nested string maps (depth <= 4, 15% up to 8, overlapping key pool; ~15% malformed: dotted / empty keys, empty sub-maps) -> " +
 		"RecursiveMapToPlainMap -> StringMapToRecursiveMap / ToRecursiveMap, and flat maps with dotted keys (prefix-free, ~20% with a " +
 		"path-prefix conflict or the empty key) -> unflatten -> flatten; (2) flat string maps -> PlainStringMapToJSON / FormattedJSON -> " +
 		"JSONToPlainStringMap, values exhaustive over {\",\\,LF,TAB,0x01,e-acute,a,/,u,0xFF} up to the tier's length plus random byte strings " +
@@ -161,6 +161,10 @@ func runC20(o *Out, rng *RNG, tier string, replay string) {
 	for i := 0; i < nTrees; i++ {
 		mal := rng.Chance(15)
 		leaves := 0
+		maxDepth := 3
+		if rng.Chance(15) {
+			maxDepth = 7 // occasionally deep: paths of up to 8 segments
+		}
 		var gen func(depth int) map[string]interface{}
 		gen = func(depth int) map[string]interface{} {
 			n := 1 + rng.Intn(3)
@@ -179,7 +183,7 @@ func runC20(o *Out, rng *RNG, tier string, replay string) {
 				if _, dup := m[key]; dup {
 					continue
 				}
-				if depth < 3 && leaves < 12 && rng.Chance(40) {
+				if depth < maxDepth && leaves < 12 && rng.Chance(40+5*maxDepth) {
 					if mal && rng.Chance(25) {
 						m[key] = map[string]interface{}{}
 						continue
